@@ -105,7 +105,7 @@ def shards(tier, seed):
                 out.append({"part": "D", "backend": backend, "K": shape[0], "L": shape[1], "cross": cross, "seed": seed})
     # one bin whose gathered samples exceed 2^25 (K*L = 34e6): beyond the block size of any gather-and-multiply fallback
     for cross in (True, False):
-        out.append({"part": "D", "backend": "numpy", "K": 850, "L": 40000, "cross": cross, "seed": seed, "orders": [0, 2] if cross else [-1, 1]})
+        out.append({"part": "D", "backend": "numpy", "K": 853, "L": 40000, "cross": cross, "seed": seed, "orders": [0, 2] if cross else [-1, 1]})
     for backend in ("numba", "numpy", "cuda"):
         out.append({"part": "V", "backend": backend, "seed": seed})
     for cross in (True, False):  # CUDA host wrappers with more than one block of threads (K=300 > 256)
@@ -381,6 +381,12 @@ def _part_D(shard):
     x = np.ascontiguousarray(records.id1(N) + 0.3 * records.id3(N))
     y = np.ascontiguousarray(records.id2(N))
     starts = np.ascontiguousarray((np.arange(K, dtype=np.int64) * step)[::-1])  # descending: unsorted starts
+    if K * L >= (1 << 25):
+        # long segments: put a line at the analysis frequency so that the estimates stand far above the rounding allowance
+        n_ = np.arange(N, dtype=np.float64)
+        w0 = 2 * np.pi * 12345.3 / L
+        x = np.ascontiguousarray(x + np.cos(w0 * n_))
+        y = np.ascontiguousarray(y + 0.5 * np.sin(w0 * n_ + 0.4))
     fails, samples = [], []
     evals = nontriv = 0
     for order in shard.get("orders", ORDERS):
